@@ -207,6 +207,21 @@ def class_(
                     maxlen=0,
                 )
 
+    # The declared order is the order of the interface: documented attributes do not move to the front
+    for e in body:
+        for target in (
+            (e.target,)
+            if isinstance(e, AnnAssign)
+            else e.targets if isinstance(e, Assign) else iter(())
+        ):
+            if (
+                isinstance(target, Name)
+                and target.id.lstrip("*") in intermediate_repr["params"]
+            ):
+                intermediate_repr["params"][target.id.lstrip("*")] = intermediate_repr[
+                    "params"
+                ].pop(target.id.lstrip("*"))
+
     intermediate_repr.update(
         {
             "name": class_name or class_def.name,
